@@ -2,7 +2,7 @@ package main
 
 // Family `profilerows` (property C17): the LIVE generated packages, row by row, in a canonical text form.
 //
-//	prow <mesgnum>            → factory.StandardFactory().CreateMesg(n): number, name, fields sorted by number
+//	pmesgx <mesgnum>            → factory.StandardFactory().CreateMesg(n): number, name, fields sorted by number
 //	pfield <mesgnum> <num>    → factory.StandardFactory().CreateField(n, num) (the lookup path the decoder uses)
 //	ptype <index>             → the index-th profile type: name, base type, ListXxx() values with String()
 //	pstr <index>              → the same type: XxxInvalid, and (value, String, FromString(String)) per listed constant
@@ -32,7 +32,7 @@ import (
 
 func init() {
 	families["profilerows"] = genProfileRows
-	executors["prow"] = execProw
+	executors["pmesgx"] = execProw
 	executors["pfield"] = execPfield
 	executors["ptype"] = execPtype
 	executors["pstr"] = execPstr
@@ -194,8 +194,8 @@ func genProfileRows(emit func(string), tier string, rng *Rng) {
 	known := map[int]bool{}
 	for _, n := range nums {
 		known[n] = true
-		emit(fmt.Sprintf("prow %d", n))
-		count("prow")
+		emit(fmt.Sprintf("pmesgx %d", n))
+		count("pmesgx")
 	}
 	// every (message, field number) of the known messages: the CreateField lookup path, hits and misses
 	for _, n := range nums {
@@ -229,7 +229,7 @@ func genProfileRows(emit func(string), tier string, rng *Rng) {
 	}
 	for m := 0; m < 65536; m++ {
 		if extra[m] {
-			emit(fmt.Sprintf("prow %d", m))
+			emit(fmt.Sprintf("pmesgx %d", m))
 			emit(fmt.Sprintf("pfield %d %d", m, rng.Intn(256)))
 			emit(fmt.Sprintf("pfield %d 253", m))
 			count("unknown-mesg")
